@@ -160,7 +160,18 @@ fn random_case(u: &mut Choices, sz: Size) -> CaseResult {
     }
     let docv = V::Map(doc.clone());
     let file = gen_core_file(u, &docv, sz, true, false);
-    let rules = print_file(&file);
+    let mut rules = print_file(&file);
+    // rules that walk the merged top-level map as a whole (`this.*`, keys filters, count): the
+    // merged map must hold every key of every source exactly once
+    for (i, (k, v)) in doc.iter().enumerate().take(6) {
+        if v.is_scalar() && v_expressible(v) && !matches!(v, V::Float(_)) {
+            rules.push_str(&format!("rule c17_value_{} {{\n  some this.* == {}\n}}\n", i, v_text(v)));
+        }
+        if guard_str(k, false).is_some() {
+            rules.push_str(&format!("rule c17_key_{} {{\n  this[ keys == {} ] !empty\n}}\n", i, v_text(&V::s(k))));
+        }
+    }
+    rules.push_str(&format!("rule c17_count {{\n  let n = count(this.*)\n  %n == {}\n}}\nrule c17_structs {{\n  this.* !is_struct\n}}\n", doc.len()));
     // split: each key goes to the data or to one of 1..3 parameter files
     let np = u.range(1, 3);
     let mut parts: Vec<Vec<(String, V)>> = vec![vec![]; np + 1];
@@ -221,7 +232,7 @@ fn random_case(u: &mut Choices, sz: Size) -> CaseResult {
 
 pub fn run(tier: Tier, seed: u64) -> i32 {
     let spec = EvidenceSpec {
-        rule: "A generated top-level map and a document-directed core rules file; the map's keys are distributed at random over the data file and 1-3 parameter files; validate is run with -i in every order (<=2 files) or 4 orders (3 files) in four modes (plain and --structured, with -r/-d files and with --payload) and compared with validating the pre-merged document through the same mode: same exit code, same PASS/FAIL/SKIP sets and file status. Parameter files are JSON or block YAML (.yaml/.yml), given one by one or as the directory that holds them (beside a .txt file that must not be used). In a quarter of the cases one key is put into two sources, with the same or another value (parameter/parameter or parameter/data): the run must exit with an error (not 0, not 19), the diagnostic must name the key, and no verdict may be printed. Non-trivial: keys come both from parameter files and from data, and there are >=2 parameter files; distinct by hash of rules, merged document and the overlapping key.".into(),
+        rule: "A generated top-level map and a document-directed core rules file plus rules that walk the top-level map as a whole (`some this.* == v` and `this[ keys == 'k' ] !empty` per key, `count(this.*)`, `this.* !is_struct`); the map's keys are distributed at random over the data file and 1-3 parameter files; validate is run with -i in every order (<=2 files) or 4 orders (3 files) in four modes (plain and --structured, with -r/-d files and with --payload) and compared with validating the pre-merged document through the same mode: same exit code, same PASS/FAIL/SKIP sets and file status. Parameter files are JSON or block YAML (.yaml/.yml), given one by one or as the directory that holds them (beside a .txt file that must not be used). In a quarter of the cases one key is put into two sources, with the same or another value (parameter/parameter or parameter/data): the run must exit with an error (not 0, not 19), the diagnostic must name the key, and no verdict may be printed. Non-trivial: keys come both from parameter files and from data, and there are >=2 parameter files; distinct by hash of rules, merged document and the overlapping key.".into(),
         assumptions: vec!["verdict comparison is by rule status sets (the merge order of keys is not part of the property)".into()],
     };
     execute("C17", tier, seed, spec, &replay, &|run: &Session| {
